@@ -179,7 +179,7 @@ def syncStep (s : BS) (k : Kind) (qBefore qAfter : Nat) : BOut :=
   let s5 : BS := if !s4.ready && qAfter == 0 then { s4 with enabled := true, ready := true } else s4
   let ev2 := if !s4.ready && qAfter == 0 then [BEv.updateAll] else []
   if s5.batch && qAfter == 0 then
-    ⟨{ s5 with batch := false, enabled := true, flag := false },
+    ⟨{ s5 with batch := false, enabled := true, flag := false, updateAll := false },
      ev1 ++ ev2 ++ (if s5.updateAll then [BEv.updateAll] else [BEv.batchReload s5.flag])⟩
   else ⟨s5, ev1 ++ ev2⟩
 
